@@ -121,6 +121,9 @@ func C13(c *core.Ctx) {
 					mut[0]++
 					label = "arity+elem"
 				}
+				if t == 2 && r.Intn(2) == 0 {
+					mut, label = gen.NestedArity(r, encs[j])
+				}
 				c13One(c, m.Mode, append(mut, follow...), label)
 				// also feed it to a decoder of another mode
 				c13One(c, gen.Modes[r.Intn(4)], append(append([]byte{}, mut...), follow...), label+"/othermode")
